@@ -4,6 +4,8 @@
                 |  PANIC <site> | FUEL loop|depth | BADCASE <why>
    The canonical AST format is documented in fam/idl/harness/src/canon.rs. Hand-written, trusted glue. *)
 open Model
+(* the extracted model defines Coq's [string]; give the name back to OCaml's *)
+type string = Stdlib.String.t
 
 (* byte: 256 constant constructors in order X00..Xff -> immediate ints 0..255 *)
 let byte_of_int (i : int) : byte = Obj.magic (i land 255)
@@ -138,6 +140,65 @@ let show (f : Buffer.t -> 'a -> unit) (r : 'a pres) : string =
   | PFuel FLoop -> "FUEL loop"
   | PFuel FDepth -> "FUEL depth"
 
+(* ---- reader of serialized concrete syntax trees (printer tie of C15; format: the cst_ functions of pv/idlgen.py) ---- *)
+let hex_of_bytes (l : byte list) : string =
+  if l = [] then "-" else String.concat "" (List.map (fun b -> Printf.sprintf "%02x" (int_of_byte b)) l)
+let string_of_bytes (l : byte list) : string =
+  String.init (List.length l) (fun i -> Char.chr (int_of_byte (List.nth l i)))
+
+let cst_type_of_tokens (toks : string list) : ctype =
+  let q = ref toks in
+  let next () = match !q with [] -> failwith "cst: eof" | t :: r -> q := r; t in
+  let payload t = bytes_of_hex (String.sub t 1 (String.length t - 1)) in
+  let count t = int_of_string (String.sub t 1 (String.length t - 1)) in
+  let rec times n f = if n <= 0 then [] else let x = f () in x :: times (n - 1) f in
+  let atom () = let t = next () in
+    match t.[0] with
+    | 'w' -> BWs (payload t) | 'l' -> BLine (payload t) | 'h' -> BHash (payload t) | 'k' -> BBlock (payload t)
+    | _ -> failwith "cst: atom" in
+  let blank () = let t = next () in if t.[0] <> 'b' then failwith "cst: blank"; times (count t) atom in
+  let lit () = let t = next () in
+    match t.[0] with
+    | 'q' -> { l_dq = false; l_body = payload t } | 'Q' -> { l_dq = true; l_body = payload t }
+    | _ -> failwith "cst: lit" in
+  let sep () = match next () with
+    | "s0" -> SepNone | "s," -> let b = blank () in SepSome (false, b) | "s;" -> let b = blank () in SepSome (true, b)
+    | _ -> failwith "cst: sep" in
+  let ann () =
+    let b1 = blank () in let key = payload (next ()) in let b2 = blank () in let b3 = blank () in let l = lit () in
+    let b4 = blank () in let s = sep () in
+    { ca_b1 = b1; ca_key = key; ca_b2 = b2; ca_b3 = b3; ca_lit = l; ca_b4 = b4; ca_sep = s } in
+  let cpp () = match next () with
+    | "c0" -> None
+    | "c1" -> let b1 = blank () in let b2 = blank () in let l = lit () in Some { cc_b1 = b1; cc_b2 = b2; cc_lit = l }
+    | _ -> failwith "cst: cpp" in
+  let base = function
+    | "string" -> BString | "void" -> BVoid | "byte" -> BByte | "bool" -> BBool | "binary" -> BBinary | "i8" -> BI8
+    | "i16" -> BI16 | "i32" -> BI32 | "i64" -> BI64 | "double" -> BDouble | "uuid" -> BUuid | _ -> failwith "cst: base" in
+  let rec ty () = match next () with
+    | "base" -> CTBase (base (next ()))
+    | "list" -> let b1 = blank () in let b2 = blank () in let t = typ () in let b3 = blank () in let c = cpp () in
+      CTList (b1, b2, t, b3, c)
+    | "set" -> let c = cpp () in let b1 = blank () in let b2 = blank () in let t = typ () in let b3 = blank () in
+      CTSet (c, b1, b2, t, b3)
+    | "map" -> let c = cpp () in let b1 = blank () in let b2 = blank () in let k = typ () in let b3 = blank () in
+      let semi = (match next () with "," -> false | ";" -> true | _ -> failwith "cst: mapsep") in
+      let b4 = blank () in let v = typ () in let b5 = blank () in
+      CTMap (c, b1, b2, k, b3, semi, b4, v, b5)
+    | "path" -> let h = payload (next ()) in let n = count (next ()) in
+      let tl = times n (fun () -> let b1 = blank () in let b2 = blank () in let s = payload (next ()) in ((b1, b2), s)) in
+      CTPath { cp_head = h; cp_tail = tl }
+    | _ -> failwith "cst: ty"
+  and typ () =
+    (match next () with "T" -> () | _ -> failwith "cst: T");
+    let t = ty () in
+    match next () with
+    | "N" -> CType (t, None)
+    | "A" -> let b = blank () in let n = count (next ()) in let l = times n ann in CType (t, Some (b, l))
+    | _ -> failwith "cst: annopt" in
+  let r = typ () in
+  if !q <> [] then failwith "cst: trailing tokens"; r
+
 let run_case (entry : string) (text : byte list) : string =
   let n = S (nat_of_int (List.length text)) in
   let raw_c b l = lit b l in
@@ -145,6 +206,12 @@ let run_case (entry : string) (text : byte list) : string =
   match entry with
   | "file" -> show file_c (parse_file text)
   | "nesting" -> "NEST " ^ string_of_z (nesting text)
+  | "print-type" ->
+    (* the Coq printer on a serialized concrete syntax tree: text, well-formedness, the erased tree *)
+    let c = cst_type_of_tokens (List.filter (fun s -> s <> "") (String.split_on_char ' ' (string_of_bytes text))) in
+    let b = Buffer.create 256 in
+    type_c b (erase_type c);
+    Printf.sprintf "TEXT %s WF %b SIMPLE %b ERASE %s" (hex_of_bytes (pr_type c [])) (wf_type c) (simple_type c) (Buffer.contents b)
   | "filemin" ->
     (* File::parse with the least depth fuel C16_depth allows: nesting + 1 *)
     let d = int_of_string (string_of_z (nesting text)) + 1 in
